@@ -9,6 +9,7 @@ claims = {
  "C11": ("model_checking", "the real rateLimitMiddleware -> RateLimitMiddleware chain on a virtual clock: symbolic declared N, every window spelling, greedy arrivals on a time grid, against the property's bound N x (1+T/window); client identity (port, forwarding headers) with symbolic bytes", "section 4 C11"),
  "C12": ("model_checking", "symbolic method-name byte strings through every call form (CallMethod/HasMethod, obj.m(a), m(obj,a), nested paths, field access) against a probe provider whose off-list methods fail the check when invoked; argument vectors of every kind through the modelled reflect.Call with its documented panics", "section 4 C12"),
  "C13": ("model_checking", "symbolic identifier/operator/direction/join/column-type byte strings through the real sanitizers, QueryBuilder.Build and ORM statement builders; the produced SQL must equal the fixed template over identifiers that satisfy an independently written safe grammar, with values only in the bound-argument list. Text structure only: execution against a real database is not claimed", "section 4 C13"),
+ "C15": ("translation_validation", "symbolic histories of JIT calls (compile, typed compile, executions, deoptimisation, invalidation with redefinition, clear, adaptive recompilation) under symbolic thresholds and clock; every bytecode handed out is executed on the VM with a symbolic input and compared with the current definition", "section 4 C15"),
  "C20": ("model_checking", "bounded symbolic execution of the real LRUCache code against a reference LRU: every feasible path of every operation history within the bounds is decided by z3; termination of Set is an unwinding obligation", "section 4 C20"),
  "C04": ("model_checking", "Go panics, oversized allocations and non-termination are implicit assertions of the symbolic executor: every interpreter and VM builtin on argument vectors of every kind with symbolic payloads, index assignment on every kind, looping/recursing programs against the (scaled) guards, and route outcomes through the real HTTP handlers with a recording writer", "section 4 C04"),
  "C05": ("model_checking", "Router.Match on symbolic route tables and symbolic request paths against the declarative most-specific-match rule; all table shapes/orders within the bounds", "section 4 C05"),
